@@ -1756,6 +1756,9 @@ pub struct ConnectionH2<Front: SocketHandler> {
     /// buffer its next DATA frame is read into, so reading DATA does not park
     /// the whole connection behind a full buffer (control frames included).
     pub recv_credit_owed: HashMap<StreamId, u32>,
+    /// The connection-level receive window is enlarged from the RFC default to
+    /// the configured `initial_connection_window` exactly once per connection.
+    connection_window_enlarged: bool,
     /// Lifetime counter of RST_STREAM frames queued (pending + already flushed).
     /// Used to detect sustained misbehavior even when writable() drains the
     /// pending queue between readable() calls.
@@ -1967,6 +1970,7 @@ impl<Front: SocketHandler> ConnectionH2<Front> {
             rst_sent: std::collections::HashSet::new(),
             wire_opened: std::collections::HashSet::new(),
             recv_credit_owed: HashMap::new(),
+            connection_window_enlarged: false,
             total_rst_streams_queued: 0,
             priorities_buf: Vec::new(),
             close_notify_sent: false,
@@ -3890,9 +3894,10 @@ impl<Front: SocketHandler> ConnectionH2<Front> {
                     .connection_config
                     .initial_connection_window
                     .saturating_sub(DEFAULT_INITIAL_WINDOW_SIZE);
-                if increment > 0 {
+                if increment > 0 && !self.connection_window_enlarged {
                     self.queue_window_update(0, increment);
                 }
+                self.connection_window_enlarged = true;
                 // Do NOT increment flow_control.window here: sending our own
                 // WINDOW_UPDATE enlarges the peer's send allowance, not ours.
                 // Our send window is only updated by WINDOW_UPDATEs we receive
@@ -5943,10 +5948,13 @@ impl<Front: SocketHandler> ConnectionH2<Front> {
         // Enlarge the connection-level receive window for backend H2
         // connections (Position::Client). The server side does this in
         // the ServerSettings writable path, but the client needs to do
-        // it here after receiving the server's initial SETTINGS.
-        if self.position.is_client()
-            && self.flow_control.window <= DEFAULT_INITIAL_WINDOW_SIZE as i32
-        {
+        // it here after receiving the server's initial SETTINGS — once: every
+        // later SETTINGS frame of the backend used to enlarge the window again
+        // (the test was on OUR send window toward the backend, which stays at or
+        // below 65 535 unless the backend enlarges it), crediting the backend
+        // `initial_connection_window - 65535` bytes it never sent per SETTINGS.
+        if self.position.is_client() && !self.connection_window_enlarged {
+            self.connection_window_enlarged = true;
             let increment = self
                 .connection_config
                 .initial_connection_window
